@@ -185,6 +185,25 @@ def check_board(case, v):
             v.fail("seed-ignored", f"seeds {seed} and {seed + 1} give the same {L}x{W} board")
 
 
+def loaded(files):
+    """What the solver's reader makes of the written files ({name: dict}); comments in the file are not the
+    property's business, the games are."""
+    import os
+    r = repo()
+    out = {}
+    for name, data in files.items():
+        path = os.path.join(boards.scratch_dir(), "inputs", "__load__" + name)
+        with open(path, "wb") as f:
+            f.write(data)
+        try:
+            out[name] = r.conditionalrewards.read_dict_from_file(path)
+        except Exception as e:
+            out[name] = f"unloadable: {type(e).__name__}"
+        finally:
+            os.remove(path)
+    return out
+
+
 def check_cli(case, v):
     args = boards.cli_args(case["seed"], case["width"], case["length"], case["rb"], case["lb"], case["tb"], case["lt"],
                            case["max_reward"], case["force_down"])
@@ -200,8 +219,8 @@ def check_cli(case, v):
     if len(f1) != 1:
         v.fail("cli-file-count", f"main({' '.join(args)}) left files {sorted(f1)}")
         return
-    if f1 != f2:
-        v.fail("not-reproducible", f"main({' '.join(args)}) twice: different file names or bytes "
+    if f1 != f2 and loaded(f1) != loaded(f2):
+        v.fail("not-reproducible", f"main({' '.join(args)}) twice: different file names or different games "
                                    f"({sorted(f1)} vs {sorted(f2)})")
 
 
@@ -254,7 +273,7 @@ def check_sequence(case, v):
         if k != "ok":
             v.fail("generator-raises", f"run {i + 1} of the sequence, main({' '.join(argv(p))}): {type(e).__name__}: {e}")
             return
-        if files.get(name) != want:
+        if files.get(name) != want and loaded({name: files.get(name, b"")}) != loaded({name: want}):
             v.fail("output-depends-on-earlier-runs", f"run {i + 1} of {len(case['runs'])} in one directory, "
                                                      f"main({' '.join(argv(p))}): {name} differs from what the same "
                                                      f"parameters write into an empty directory (earlier runs: "
